@@ -293,10 +293,21 @@ class _Cov:
         return cls.cov
 
 
+GAUSS_RAISED = []          # (parameters, exception) of calls that raised on a valid covariance matrix
+
+
 def code_gauss(xs, ys, mu0, mu1, sxx, syy, sxy):
     with np.errstate(all="ignore"):
-        v = K().gaussian(np.array(xs, dtype=float), np.array(ys, dtype=float), mu=np.array([mu0, mu1]),
-                         sigma=np.array([[sxx, sxy], [sxy, syy]]))
+        try:
+            v = K().gaussian(np.array(xs, dtype=float), np.array(ys, dtype=float), mu=np.array([mu0, mu1]),
+                             sigma=np.array([[sxx, sxy], [sxy, syy]]))
+        except Exception as e:
+            if sxx > 0 and syy > 0 and sxy * sxy < sxx * syy:
+                # positive variances and |r| < 1 (the property's quantifier): no value at all is returned.  NaN makes every
+                # clause evaluated on this call fail, with these parameters as the failing input
+                GAUSS_RAISED.append(((mu0, mu1, sxx, syy, sxy), "%s: %s" % (type(e).__name__, e)))
+                return np.full(len(xs), np.nan)
+            raise
     return np.array(v, dtype=float).reshape(-1)
 
 
